@@ -66,6 +66,8 @@ class Defs:
         for rel in files:
             p = os.path.join(root, rel)
             if not os.path.exists(p):
+                if rel in ('src/bdd.rs', 'src/parser.rs', 'src/lib.rs'):
+                    raise Unsupported('source file %s is missing from the copy of the tree under test' % rel)
                 continue
             raw = open(p).read()
             self.sources[rel] = raw
